@@ -187,22 +187,20 @@ Proof.
 Qed.
 
 (* ---------- Enabled through a logger's core ---------- *)
-Lemma kenabled_expect root hi m sg : root_ok m sg root -> forall its, path_ok m sg root its ->
-  kenabled root hi (expect m root its) sg = senabled hi root.
+Lemma kenabled_expect root hi m : forall its, kenabled root hi (expect m root its) = senabled hi root.
 Proof.
-  intros Hroot. induction its as [|it its IH] using rev_ind; intros Hpath.
-  - cbn [expect expect_from kenabled]. now apply (renabled_senabled m).
-  - apply path_ok_snoc in Hpath as [Hp0 Hit]. destruct it as [w0 fs0|id lfs].
+  induction its as [|it its IH] using rev_ind.
+  - cbn [expect expect_from kenabled]. apply renabled_senabled.
+  - destruct it as [w0 fs0|id lfs].
     + rewrite expect_snoc_eager. cbn [kenabled]. apply penabled_pexp.
-    + rewrite expect_snoc_lazy. cbn [kenabled]. destruct Hit as [Hcell _]. unfold cell_ok in Hcell. rewrite Hcell.
-      destruct (lookup id m); [apply penabled_pexp|now apply IH].
+    + rewrite expect_snoc_lazy. cbn [kenabled]. exact IH.
 Qed.
 
 (* ---------- Check + Write through a logger's core ---------- *)
 Definition log_marks (hi : bool) (root : lcomp) (its : list pitem) : list nat :=
   if is_nil its then log_ids hi root else all_ids root ++ lazy_ids its.
 
-Lemma klog_expect root hi nm msg w fs : wf_sflds fs = true -> wf_lcomp root = true ->
+Lemma klog_expect root hi nm msg w fs : wf_sflds fs = true -> wf_lcomp root = true -> senabled hi root = true ->
   forall its sg m, wf_items its = true -> NoDup (all_ids root ++ lazy_ids its) -> root_ok m sg root -> path_ok m sg root its ->
   let m' := mark_all w (log_marks hi root its) m in
   exists sg', klog (mk_entry hi nm msg) hi w fs root (expect m root its) sg =
@@ -210,7 +208,7 @@ Lemma klog_expect root hi nm msg w fs : wf_sflds fs = true -> wf_lcomp root = tr
               root_ok m' sg' root /\ path_ok m' sg' root its /\
               (forall id, ~ In id (all_ids root ++ lazy_ids its) -> lookup id sg' = lookup id sg).
 Proof.
-  intros Hfs Hwr its sg m Hwi Hnd Hroot Hpath m'. subst m'.
+  intros Hfs Hwr Hen its sg m Hwi Hnd Hroot Hpath m'. subst m'.
   destruct its as [|it its] using rev_ind.
   - cbn [log_marks is_nil expect expect_from klog lazy_ids map concat] in *. rewrite app_nil_r in *.
     destruct (rlog_spec hi nm msg w fs Hfs root sg m false Hwr Hnd Hroot) as (sg' & E & Hok & Hfr).
@@ -222,7 +220,7 @@ Proof.
       assert (El : lazy_ids (its ++ [PEager w0 fs0]) = lazy_ids its).
       { rewrite lazy_ids_app. cbn [lazy_ids map concat]. now rewrite app_nil_r. }
       rewrite El, (mark_all_marked w _ m Hall). exists sg. rewrite (plog_pexp m hi nm msg w fs Hfs root _ false Hwr Hwi). auto.
-    + rewrite expect_snoc_lazy. cbn [klog].
+    + rewrite expect_snoc_lazy. cbn [klog]. rewrite kenabled_expect, Hen.
       destruct (init_once_path root w its id lfs (kwith_expect root w its) sg m Hnd Hroot Hpath) as (sg' & E & Hok & Hp & Hfr).
       exists sg'. rewrite E. rewrite (plog_pexp _ hi nm msg w fs Hfs root _ false Hwr Hwi). auto.
 Qed.
